@@ -145,6 +145,14 @@ def record_xml(cx, prefixes, rng, ind):
                     kids.append("<%s%s>%s</%s>" % (cx.pn(an), lg, escape(rng.choice(STRINGS)), cx.pn(an)))
                 else:
                     kids.append(value_xml(cx, lp, cx.pn(an), rng, allow_lang=False))
+    if kind in SUBTYPES and cx.provp and rng.random() < 0.3:
+        # further PROV-defined subtypes of the record's own kind as prov:type children (a subtype element may well carry
+        # a second subtype: <prov:collection> typed prov:EmptyCollection, <prov:person> typed prov:SoftwareAgent)
+        fam = {"agent": ["Person", "Organization", "SoftwareAgent"], "entity": ["Plan", "Collection", "EmptyCollection", "Bundle"],
+               "wasDerivedFrom": ["Revision", "Quotation", "PrimarySource"]}[kind]
+        at = [i for i, k in enumerate(kids) if k.startswith("<%s" % cx.pn("value"))]
+        for t in rng.sample(fam, rng.choice([1, 2])):
+            kids.insert(at[0] if at else len(kids), '<%s xsi:type="xsd:QName">%s:%s</%s>' % (cx.pn("type"), cx.provp, t, cx.pn("type")))
     for _ in range(rng.choice([0, 1, 1, 2])):
         kids.append(value_xml(cx, lp, rng.choice(lp) + ":" + rng.choice(["k", "v2", "size"]), rng))
     if rng.random() < 0.05:
